@@ -17,7 +17,8 @@ pub use crate::engine::JobOutputResult;
 
 #[derive(Clone, Debug, PartialEq, Eq)]
 pub struct Snapshot {
-    /// (job id, state as Debug string, history_output) in declaration order
+    /// (job id, state as text: Debug string, `#`, flags from the engine's own predicates - see
+    /// `engine::verif_state_text`, history_output) in declaration order
     pub jobs: Vec<(String, String, Option<String>)>,
     /// (upstream id, downstream id, required, invalidated), sorted
     pub edges: Vec<(String, String, String, String)>,
